@@ -19,6 +19,7 @@ import (
 	"strings"
 
 	"seehuhn.de/go/postscript/afm"
+	"seehuhn.de/go/postscript/funit"
 
 	"verif/harness/ref"
 	"verif/harness/rt"
@@ -170,6 +171,43 @@ func hugeOrNonFinite(m *afm.Metrics) bool {
 }
 
 func runC15(r *rt.Runner) {
+	// a metrics file of many megabytes (no long lines: very many kerning pairs)
+	nHuge := r.N(1, 2)
+	for k := 0; k < nHuge; k++ {
+		k := k
+		r.Case("huge", func(c *rt.C) {
+			rng := rand.New(rand.NewPCG(r.Seed, uint64(k)+15))
+			o := &afmOpts{representable: true, features: map[string]bool{}}
+			m := genMetrics(rng, o, 20)
+			var names []string
+			for i := 0; i < 1000; i++ {
+				n := fmt.Sprintf("glyph%04d", i)
+				names = append(names, n)
+				m.Glyphs[n] = &afm.GlyphInfo{WidthX: float64(rng.IntN(1000))}
+			}
+			m.Kern = m.Kern[:0]
+			for i := 0; i < 660000+rng.IntN(20000); i++ {
+				m.Kern = append(m.Kern, &afm.KernPair{Left: names[rng.IntN(len(names))], Right: names[rng.IntN(len(names))], Adjust: funit.Int16(rng.IntN(401) - 200)})
+			}
+			c.SetDetail(func() string { return fmt.Sprintf("%d glyphs, %d kerning pairs", len(m.Glyphs), len(m.Kern)) })
+			var buf bytes.Buffer
+			if err := m.Write(&buf); err != nil {
+				c.Violation("huge|write-error", fmt.Sprintf("Write failed: %v", err), "")
+				return
+			}
+			m1, err := afm.Read(bytes.NewReader(buf.Bytes()))
+			if err != nil {
+				c.Violation("huge|read-error", fmt.Sprintf("Read(Write(M)) failed on a file of %d bytes: %v", buf.Len(), err), "")
+				return
+			}
+			if d := compareMetrics(m, m1, -1, true); len(d) > 0 {
+				c.Violation("huge|roundtrip|"+diffKind15(d[0]), fmt.Sprintf("Read(Write(M)) differs from M (file of %d bytes, %d kerning pairs):\n  %s", buf.Len(), len(m.Kern), joinLines(d[:min(5, len(d))])), "")
+			}
+			c.Count("round trips of metrics files beyond 16 MiB")
+			c.Runner().Max("largest metrics file written and read back (bytes)", int64(buf.Len()))
+			c.Nontrivial([]byte(fmt.Sprintf("huge|%d|%d", k, len(m.Kern))), func() string { return fmt.Sprintf("%d kerning pairs, %d bytes", len(m.Kern), buf.Len()) })
+		})
+	}
 	n := r.N(150000, 1500000)
 	for k := 0; k < n; k++ {
 		r.Case("model", func(c *rt.C) {
